@@ -104,6 +104,15 @@ func payloadOf(s spec, i int) []byte {
 	return p
 }
 
+// broadcastMsg is shared by all sessions of the process and never written to after init.
+var broadcastMsg, broadcastSum = func() ([]byte, string) {
+	p := make([]byte, 9000)
+	for j := range p {
+		p[j] = "the same bytes for every connection; "[j%37]
+	}
+	return p, sum(p)
+}()
+
 func sum(p []byte) string { h := sha1.Sum(p); return fmt.Sprintf("%d:%x", len(p), h[:6]) }
 
 type transcript struct {
@@ -544,6 +553,11 @@ func runSession(s spec) *transcript {
 			cfc.arm()
 		}
 		p := payloadOf(s, i)
+		if s.traffic <= 1 && i == 1 {
+			// a broadcast: every such session sends THE SAME slice (what a hub does with one encoded message and
+			// many connections) - it is the caller's, read-only for everybody
+			p = broadcastMsg[:len(broadcastMsg)-s.id%3]
+		}
 		op := []ws.OpCode{ws.OpText, ws.OpBinary}[i%2]
 		if i%2 == 1 {
 			if err = wsutil.WriteClientMessage(conn, ws.OpPing, pingOf(s, i)); err != nil {
@@ -916,6 +930,10 @@ func subSessions() mon.Sub {
 						return
 					}
 				}
+			}
+			if sum(broadcastMsg) != broadcastSum {
+				c.Fail("caller-bytes/broadcast", "the slice that the sessions sent as a broadcast no longer holds the caller's bytes after the sessions ended", map[string]interface{}{"n": n, "gomaxprocs": gp, "mix": mix})
+				return
 			}
 			pool.VerifyQuarantine()
 			if al := pool.TakeAlarms(); len(al) > 0 {
